@@ -41,10 +41,14 @@ class RecursiveChecker(ConversionsVisitor[Conv, Any], ObjectVisitor[Any]):
     def __init__(self, default_conversion: DefaultConversion):
         super().__init__(default_conversion)
         self._cache = recursion_cache(self.__class__)
-        self._recursive: Dict[RecursionKey, Set[RecursionKey]] = {}
-        self._all_recursive: Set[RecursionKey] = set()
+        # Tarjan's strongly connected components algorithm: a type is recursive
+        # if it belongs to a cycle, i.e. to a component of several types or to a
+        # component made of a single type referencing itself
+        self._indices: Dict[RecursionKey, int] = {}
+        self._lowlinks: Dict[RecursionKey, int] = {}
+        self._stack: List[RecursionKey] = []
+        self._self_recursive: Set[RecursionKey] = set()
         self._guard: List[RecursionKey] = []
-        self._guard_indices: Dict[RecursionKey, int] = {}
 
     def any(self):
         pass
@@ -82,25 +86,38 @@ class RecursiveChecker(ConversionsVisitor[Conv, Any], ObjectVisitor[Any]):
     def visit(self, tp: AnyType):
         rec_key = (tp, self._conversion)
         if rec_key in self._cache:
+            # cached types belong to completed components: they cannot reach
+            # a type being visited
             pass
-        elif rec_key in self._guard_indices:
-            recursive = self._guard[self._guard_indices[rec_key] :]
-            self._recursive.setdefault(rec_key, set()).update(recursive)
-            self._all_recursive.update(recursive)
+        elif rec_key in self._indices:
+            # type already met, still being visited or belonging to a component still
+            # being visited (otherwise, it would be in cache)
+            parent = self._guard[-1]
+            self._lowlinks[parent] = min(
+                self._lowlinks[parent], self._indices[rec_key]
+            )
+            if parent == rec_key:
+                self._self_recursive.add(rec_key)
         else:
-            self._guard_indices[rec_key] = len(self._guard)
+            index = len(self._indices)
+            self._indices[rec_key] = self._lowlinks[rec_key] = index
+            self._stack.append(rec_key)
             self._guard.append(rec_key)
             try:
                 super().visit(tp)
             finally:
                 self._guard.pop()
-                self._guard_indices.pop(rec_key)
-            if rec_key in self._recursive:
-                for key in self._recursive[rec_key]:
-                    self._cache[key] = True
-                assert self._cache[rec_key]
-            elif rec_key not in self._all_recursive:
-                self._cache[rec_key] = False
+            if self._guard:
+                parent = self._guard[-1]
+                self._lowlinks[parent] = min(
+                    self._lowlinks[parent], self._lowlinks[rec_key]
+                )
+            if self._lowlinks[rec_key] == index:
+                component = self._stack[self._stack.index(rec_key) :]
+                del self._stack[len(self._stack) - len(component) :]
+                recursive = len(component) > 1 or rec_key in self._self_recursive
+                for key in component:
+                    self._cache[key] = recursive
 
 
 class DeserializationRecursiveChecker(
